@@ -139,6 +139,13 @@ func c02Exprs(depth2 bool, full bool) []vx.Exp {
 		out = append(out, vx.Op{Kind: k, Name: vx.Ref{Name: vx.Lit("u")}, RHS: vx.Lit("d")})
 	}
 	out = append(out, vx.Ref{Name: vx.Cat{vx.Lit("p."), vx.Ref{Name: vx.Lit("qname")}}})
+	// operators on a name computed from a constant prefix and a reference (set / unset), inside text
+	for _, k := range []string{":", ":+", ":?"} {
+		for _, inner := range []string{"qname", "u", "z"} {
+			op := vx.Op{Kind: k, Name: vx.Cat{vx.Lit("p."), vx.Ref{Name: vx.Lit(inner)}}, RHS: vx.Lit("d")}
+			out = append(out, op, vx.Cat{vx.Lit("pre-"), op, vx.Lit("-post")})
+		}
+	}
 	if depth2 {
 		// nested defaults: ${n1:${n2:lit}} ... and operators inside operators
 		inner := ops
@@ -392,6 +399,77 @@ func exprShape(e vx.Exp) string {
 }
 
 // typed single references: a setting that is exactly one reference takes the referenced value with its type.
+// c02ResolverText: values a resolver supplies are inserted into text as they are spelled (the
+// resolver's parse.Config only matters for a setting that is exactly one reference).
+func c02ResolverText() *core.Space {
+	vals := map[string]string{"ID": "007", "VER": "1.10", "OFF": "+5", "LBL": "'blue'", "T": "true", "N": "null", "HEX": "0x10", "SP": "pad  ded", "F": "1e3"}
+	names := []string{"ID", "VER", "OFF", "LBL", "T", "N", "HEX", "SP", "F"}
+	templates := []struct{ pre, post, op string }{
+		// (every template starts with literal text: a result starting with a quote or bracket is
+		// read with the value syntax, which is not the point here)
+		{"agent-", "", ""}, {"v", "-rc", ""}, {"<", ">", ":nobody"}, {"<", ">", ":+set"}, {"x-", "-x", ":?unset"}, {"a-", "-b", ""},
+	}
+	cfgs := []struct {
+		name string
+		pc   parse.Config
+	}{{"parse.DefaultConfig", parse.DefaultConfig}, {"parse.NoopConfig", parse.NoopConfig}, {"parse.EnvConfig", parse.EnvConfig}}
+	radices := []int{len(names), len(templates), len(cfgs), 3}
+	return &core.Space{
+		Name: "resolver-values-inside-text",
+		Size: product(radices...),
+		Text: func(i int) string {
+			d := mixedRadix(i, radices...)
+			t := templates[d[1]]
+			return fmt.Sprintf("k: %q with a resolver (%s) answering %s=%q, read through entry %d", t.pre+"${"+names[d[0]]+t.op+"}"+t.post, cfgs[d[2]].name, names[d[0]], vals[names[d[0]]], d[3])
+		},
+		Exec: func(i int) core.Result {
+			d := mixedRadix(i, radices...)
+			n, t := names[d[0]], templates[d[1]]
+			text := t.pre + "${" + n + t.op + "}" + t.post
+			want := t.pre + vals[n] + t.post
+			if t.op == ":+set" {
+				want = t.pre + "set" + t.post
+			}
+			var res core.Result
+			pi := core.Guard(func() {
+				opts := []ucfg.Option{ucfg.PathSep("."), ucfg.VarExp, ucfg.Resolve(func(name string) (string, parse.Config, error) {
+					if v, ok := vals[name]; ok {
+						return v, cfgs[d[2]].pc, nil
+					}
+					return "", cfgs[d[2]].pc, ucfg.ErrMissing
+				})}
+				cfg, err := ucfg.NewFrom(M{"k": text, "s": M{"k": text}, "l": L{text}}, opts...)
+				if err != nil {
+					res = core.Fail("resolvertext", "BUILD", err.Error())
+					return
+				}
+				var got string
+				switch d[3] {
+				case 0:
+					got, err = cfg.String("k", -1, opts...)
+				case 1:
+					got, err = cfg.String("s.k", -1, opts...)
+				case 2:
+					var st struct{ L []string }
+					if err = cfg.Unpack(&st, opts...); err == nil {
+						got = st.L[0]
+					}
+				}
+				if err != nil || got != want {
+					res = core.Fail("resolvertext", "RESOLVER-VALUE-NOT-INSERTED-VERBATIM", fmt.Sprintf("expected %q, got (%q, %v)", want, got, err))
+					return
+				}
+				res.Nontrivial = true
+				res.Outcome = "verbatim"
+			})
+			if pi != nil {
+				return apiPanic("resolvertext", pi)
+			}
+			return res
+		},
+	}
+}
+
 func c02Typed() *core.Space {
 	type tcase struct {
 		ref    string
@@ -530,9 +608,9 @@ func init() {
 		},
 		Spaces: func(tier string) []*core.Space {
 			if tier == "thorough" {
-				return []*core.Space{c02Typed(), c02Space("expressions-depth<=2", c02Exprs(true, true))}
+				return []*core.Space{c02Typed(), c02ResolverText(), c02Space("expressions-depth<=2", c02Exprs(true, true))}
 			}
-			return []*core.Space{c02Typed(), c02Space("expressions-depth<=1+nested-defaults", c02Exprs(true, false))}
+			return []*core.Space{c02Typed(), c02ResolverText(), c02Space("expressions-depth<=1+nested-defaults", c02Exprs(true, false))}
 		},
 	})
 }
